@@ -110,6 +110,11 @@ pub fn replay_mlstring(path: &str, out: &mut impl Write) -> (u64, u64) {
         for (pi, text) in placements.iter().enumerate() {
             let Ok(tin) = lex(text) else { continue };
             if tin.iter().filter(|t| t.kind == "TextLiteral(MultiLine)").count() != 1 {
+                // the specification's scanner sees exactly one multi-line literal here (MC_MLString: OneLiteral)
+                if pi == 0 {
+                    bad += 1;
+                    let _ = writeln!(out, "{}", json!({"t": "viol", "prop": "C12", "clause": "literal_not_scanned", "detail": format!("the literal {:?} is not scanned as one multi-line literal; its text is then formatted as code", lit), "text": text, "literal": v["text"]}));
+                }
                 continue;
             }
             for (ci, cfg) in cfgs.iter().enumerate() {
